@@ -285,7 +285,7 @@ def unit_multicategorical(S):
                                 *[ir.seq(sm.at((i,)), sc[i].outputs[0].scalar()) for i in range(len(dims))],
                                 ir.seq(slp.scalar(), sum(ir.zreal(c.outputs[1].scalar()) for c in sc)),
                                 *([z3.Distinct(*keys)] if len(keys) > 1 else []))
-                    S.prove(f"{tag}/sample_and_log_prob-coherent", ctx, goal, hyps=[inj], function=fn + ".sample_and_log_prob",
+                    S.prove(f"{tag}/sample_and_log_prob-coherent", ctx, goal, hyps=[inj] + kit.rng_ground_injectivity(keys), function=fn + ".sample_and_log_prob",
                             what="returned sample = the component samples stacked, returned log-prob = sum of the log-probs OF THOSE samples, components drawn with pairwise different keys")
                 n1 = len(ctx.calls)
                 s2 = run(ctx, lambda p, kk: mk_flat(p).sample(kk), flat, k)
